@@ -9,6 +9,9 @@ namespace photospline{
 template<typename Alloc>
 bool splinetable<Alloc>::searchcenters(const double* x, int* centers) const
 {
+	//nothing can be looked up, or evaluated afterwards, in an empty table
+	if (ndim == 0)
+		return (false);
 	for (uint32_t i = 0; i < ndim; i++) {
 		
 		/* Ensure we are actually inside the table (this also rejects NaN). */
